@@ -248,7 +248,7 @@ def run_check(prop_id: str, tier: str, seed: int, jobs: Optional[int] = None) ->
     if isinstance(ns, dict):
         ns = ns.get(tier, 16)
     nshards = jobs or ns
-    watchdog = getattr(prop, "WATCHDOG_S", {"quick": 900, "thorough": 7200})[tier]
+    watchdog = getattr(prop, "WATCHDOG_S", {"quick": 1500, "thorough": 7200})[tier]
     scratch = tempfile.mkdtemp(prefix=f"verif-{prop_id}-")
     env = dict(os.environ)
     env.setdefault("PYTHONHASHSEED", "0")
